@@ -12,7 +12,7 @@ import os
 import re
 import signal
 
-from ..core import env, par, shrink
+from ..core import cli, codebase, env, par, shrink
 from ..core.result import Failure, Report, robust
 
 ID = "C16"
@@ -146,6 +146,30 @@ def _clean(root):
     return root
 
 
+def _cli_case(arg):
+    """The user-facing path: `codebasin -R duplicates analysis.toml` prints the same groups."""
+    files, assign, variant = arg
+    root = env.fresh_dir("c16c")
+    excludes = build(root, files, assign, variant)
+    exp = expected(files, assign, variant)
+    codebase.write_analysis(root, {"p": [{"file": "d1/a.c", "args": []}]}, exclude=excludes)
+    r = cli.run("codebasin", ["-R", "duplicates", "analysis.toml"], root)
+    groups, cur = [], None
+    for ln in r["out"].splitlines():
+        if re.match(r"Match \d+:", ln):
+            cur = set()
+            groups.append(cur)
+        elif ln.startswith("- ") and cur is not None:
+            cur.add(os.path.relpath(ln[2:].strip(), root))
+    got = {frozenset(g) for g in groups}
+    w = {"files": {f: POOL[c] for f, c in zip(files, assign)}, "variant": variant, "through": "codebasin -R duplicates"}
+    import shutil
+    shutil.rmtree(root, ignore_errors=True)
+    if r["rc"] != 0 or got != exp or len(groups) != len(got):
+        return [Failure("cli-report", w, expected=sorted(sorted(g) for g in exp), observed={"exit": r["rc"], "groups": sorted(sorted(g) for g in groups), "stdout_tail": r["out"][-300:]})]
+    return []
+
+
 def _work(arg):
     files, lo, hi, variants = arg
     root = env.fresh_dir("c16")
@@ -192,11 +216,15 @@ def run(tier):
     res = par.pmap(_work, jobs)
     for r in res:
         rep.add(r[3])
+    # two groups + a singleton, through the command line, for every structural variant
+    clis = par.pmap(_cli_case, [(FILES5, (1, 1, 3, 3, 0), v) for v in VARIANTS if v != "overlapping-directories"] + [(FILES5, (1, 2, 3, 4, 0), "plain")])
+    for f in clis:
+        rep.add(f)
     n = sum(r[0] for r in res)
     rep.coverage.update({
         "evaluations": n, "distinct_nontrivial": sum(r[1] for r in res),
         "rule": "every assignment of %d contents to %d files x %d structural variants; non-trivial = at least one duplicate group expected" % (len(POOL), len(files), len(VARIANTS)),
-        "assignments": total, "variants": VARIANTS, "failing_cases": sum(r[2] for r in res),
+        "assignments": total, "variants": VARIANTS, "cli_cases": len(clis), "failing_cases": sum(r[2] for r in res),
         "distinct_expected_partitions_per_shard_sum": sum(r[4] for r in res),
         "samples": [{"files": dict(zip(files, ["a\n", "a\n", "a", "", ""] + [""] * (len(files) - 5))), "variant": "symlink-twin",
                      "expected_groups": [["d1/a.c", "d1/b.c"], sorted(f for f, c in zip(files, ["a\n", "a\n", "a", "", ""] + [""] * (len(files) - 5)) if c == "")]}],
